@@ -3,6 +3,7 @@
 package packet
 
 import (
+	"bytes"
 	"net"
 	"net/netip"
 )
@@ -18,10 +19,14 @@ func spec_valid_ip4(p IP4) bool {
 		int(spec_be16(p, 2)) >= int(p[0]&0x0f)*4 && int(spec_be16(p, 2)) <= len(p)
 }
 
-//verif:props C01 C02
+//verif:props C01 C02 C16
 func verif_contract_IP4_IsValid(p IP4) error {
+	a0 := vAllocs()
 	err := p.IsValid()
 	vEnsures((err == nil) == spec_valid_ip4(p))
+	if err == nil {
+		vEnsures(vAllocs() == a0) // only the error paths allocate (C16)
+	}
 	return err
 }
 
@@ -201,21 +206,52 @@ func spec_session_wf(h *Session) bool {
 	return h != nil && h.NICInfo != nil && len(h.Statistics) == 32
 }
 
-// Host-table callees of Parse. Their contracts are proved separately (C05);
-// here only what Parse needs: non-nil results, the session stays well formed,
-// the caller's packet bytes are not written.
+// spec_hosttable_ok: the host index holds no nil host and every host has its MAC entry (part of C05's invariant).
+func spec_hosttable_ok(h *Session) bool {
+	return h.HostTable.Table != nil && vMapAll(h.HostTable.Table, func(ip netip.Addr, host *Host) bool { return host != nil && host.MACEntry != nil })
+}
+
+// spec_tracked: addr.IP is indexed and bound to addr.MAC.
+func spec_tracked(h *Session, addr Addr) bool {
+	host, ok := h.HostTable.Table[addr.IP]
+	return ok && host != nil && host.MACEntry != nil && bytes.Equal(host.MACEntry.MAC, addr.MAC)
+}
+
+// findOrCreateHostWithLock. Verified case (C16): the address is already tracked (indexed under
+// its IP and bound to the same MAC): the existing host is returned, only the two LastSeen stamps
+// are written and nothing is allocated. The creation / relinking case is TRUSTED here: Parse
+// needs from it only non-nil results and a well-formed session (its full contract is C05's).
+//
+//verif:props C16
 func verif_contract_Session_findOrCreateHostWithLock(h *Session, addr Addr) (*Host, bool) {
 	vRequires(spec_session_wf(h))
-	vModifiesHeap()
+	tracked := spec_hosttable_ok(h) && spec_tracked(h, addr)
+	var h0 *Host
+	var online0 bool
+	if tracked {
+		h0 = h.HostTable.Table[addr.IP]
+		online0 = h0.Online
+		vCanary()
+	} else {
+		vTrusted("host creation / relinking (slow path of findOrCreateHostWithLock): only non-nil results and spec_session_wf are used from it")
+	}
+	// host and MAC tables only (objects, the two index structures, their element slices)
+	vModifiesMems("packet.Host", "packet.MACEntry", "packet.MACTable", "packet.Session/", "packet.NameEntry")
+	a0 := vAllocs() // read last: the harness's own literals count as allocations too
 	host, found := h.findOrCreateHostWithLock(addr)
 	vEnsures(host != nil && host.MACEntry != nil)
 	vEnsures(spec_session_wf(h))
+	if tracked {
+		vEnsures(found && host == h0)
+		vEnsures(host.Online == online0)
+		vEnsures(vAllocs() == a0)
+	}
 	return host, found
 }
 
 func verif_contract_Session_onlineTransition(h *Session, host *Host) {
 	vRequires(spec_session_wf(h) && host != nil && host.MACEntry != nil)
-	vModifiesHeap()
+	vModifiesMems("packet.Host", "packet.MACEntry", "packet.MACTable", "packet.Session/", "packet.NameEntry")
 	h.onlineTransition(host)
 	vEnsures(spec_session_wf(h))
 }
@@ -409,7 +445,7 @@ func spec_parse(p []byte) specFrame {
 //
 //verif:props C02
 func verif_lemma_parse_refines_spec(h *Session, p []byte) {
-	vRequires(spec_session_wf(h))
+	vRequires(spec_session_wf(h) && spec_icmptable_ok())
 	s := spec_parse(p)
 	frame, err := h.Parse(p)
 	vCanary()
@@ -425,13 +461,51 @@ func verif_lemma_parse_refines_spec(h *Session, p []byte) {
 	}
 }
 
+// spec_steady (C16): the frame is an untagged IPv4, IPv6 or ARP frame whose source (for ARP: the
+// sender fields) is indexed in the host table under its IP, bound to the same MAC, and online.
+func spec_steady(h *Session, p []byte, s specFrame) bool {
+	if len(p) < 14 || !spec_hosttable_ok(h) {
+		return false
+	}
+	var a Addr
+	switch spec_be16(p, 12) {
+	case 0x0800, 0x86dd:
+		a = Addr{MAC: net.HardwareAddr(p[6:12]), IP: s.srcIP}
+	case 0x0806:
+		if len(p) < 42 {
+			return false
+		}
+		a = Addr{MAC: net.HardwareAddr(p[22:28]), IP: netip.AddrFrom4([4]byte{p[28], p[29], p[30], p[31]})}
+	default:
+		return false
+	}
+	if !spec_tracked(h, a) {
+		return false
+	}
+	return h.HostTable.Table[a.IP].Online
+}
+
 //verif:props C01 C02 C08 C16
 func verif_contract_Session_Parse(h *Session, p []byte) (Frame, error) {
-	vRequires(spec_session_wf(h))
+	vRequires(spec_session_wf(h) && spec_icmptable_ok())
 	vStrictLen()
 	vModifiesHeap()
 	s := spec_parse(p)
+	steady := spec_steady(h, p, s)
+	a0 := vAllocs()
 	frame, err := h.Parse(p)
+	// C16: a well-formed frame from a host that is already tracked and online is parsed without allocating
+	if err == nil && steady {
+		a1 := vAllocs()
+		switch spec_be16(p, 12) { // one query per frame family
+		case 0x0800:
+			vEnsures(a1 == a0)
+		case 0x86dd:
+			vEnsures(a1 == a0)
+		default:
+			vEnsures(a1 == a0)
+		}
+	}
 	vEnsures(!s.mustErr || err != nil)
 	vEnsures(err == nil || s.mustErr || s.mayErr)
 	if err == nil {
@@ -472,7 +546,7 @@ func verif_contract_Session_Parse(h *Session, p []byte) (Frame, error) {
 
 //verif:props C01 C16
 func verif_lemma_frame_accessors(h *Session, p []byte) {
-	vRequires(spec_session_wf(h))
+	vRequires(spec_session_wf(h) && spec_icmptable_ok())
 	f, err := h.Parse(p)
 	if err != nil {
 		return
@@ -552,7 +626,7 @@ func VerifSpecFrameARP(f Frame) bool {
 
 //verif:props C08 C13
 func verif_lemma_parse_establishes_frame(h *Session, p []byte) {
-	vRequires(spec_session_wf(h))
+	vRequires(spec_session_wf(h) && spec_icmptable_ok())
 	f, err := h.Parse(p)
 	if err != nil {
 		return
@@ -583,7 +657,7 @@ func VerifSpecFrameUDP(f Frame) bool {
 
 //verif:props C08
 func verif_lemma_parse_establishes_udp(h *Session, p []byte) {
-	vRequires(spec_session_wf(h))
+	vRequires(spec_session_wf(h) && spec_icmptable_ok())
 	f, err := h.Parse(p)
 	if err != nil {
 		return
@@ -597,7 +671,7 @@ func verif_lemma_parse_establishes_udp(h *Session, p []byte) {
 
 //verif:props C08
 func verif_lemma_parse_establishes_icmp(h *Session, p []byte) {
-	vRequires(spec_session_wf(h))
+	vRequires(spec_session_wf(h) && spec_icmptable_ok())
 	f, err := h.Parse(p)
 	if err != nil {
 		return
